@@ -27,6 +27,7 @@ type swrExp struct {
 	Cancel    int64 // caller context: swrNoCancel, swrCancelBefore, or cancelled this many ns after the response was returned
 	Outcome   string
 	Validator int // 0 none, 1 ETag, 2 Last-Modified, 3 both; +4: the stored response also says no-cache="ETag, Last-Modified"
+	Deadline  int64 // the caller's context has a deadline this many ns after the second request starts; 0 = none
 }
 
 const (
@@ -178,7 +179,13 @@ func runSWR(t *testing.T, e *swrExp) (line string) {
 			r1.Body.Close()
 			time.Sleep(2 * time.Second)
 			synctest.Wait()
-			ctx, cancel := context.WithCancel(context.Background())
+			parent := context.Background()
+			if e.Deadline > 0 {
+				var stop context.CancelFunc
+				parent, stop = context.WithDeadline(parent, time.Now().Add(time.Duration(e.Deadline)))
+				defer stop()
+			}
+			ctx, cancel := context.WithCancel(parent)
 			defer cancel()
 			if e.Cancel == swrCancelBefore {
 				cancel()
@@ -229,7 +236,7 @@ func runSWR(t *testing.T, e *swrExp) (line string) {
 			}
 		})
 	}()
-	return fmt.Sprintf("SWR %d %d %d %s %d | %s\n", e.Setting, e.Latency, e.Cancel, e.Outcome, e.Validator, obs)
+	return fmt.Sprintf("SWR %d %d %d %s %d %d | %s\n", e.Setting, e.Latency, e.Cancel, e.Outcome, e.Validator, e.Deadline, obs)
 }
 
 func TestSWR(t *testing.T) {
@@ -272,6 +279,19 @@ func TestSWR(t *testing.T) {
 					}
 				}
 			}
+			// caller contexts that carry a deadline of their own: earlier and later than the timeout
+			for _, dl := range []int64{T/2 + 11, 3*T + 11, 35 * sec} {
+				if d == dl || (T < 1000 && (d == T-1000 || d == T+1000)) {
+					continue
+				}
+				c := swrNoCancel
+				if g.chance(0.25) {
+					c = 2*T + 7
+				}
+				lines = append(lines, runSWR(t, &swrExp{Setting: s, Latency: d, Cancel: c, Outcome: []string{"304", "200", "500", "err"}[g.intn(4)],
+					Validator: []int{0, 1, 2, 3, 5, 7}[g.intn(6)], Deadline: dl}))
+				n++
+			}
 		}
 	}
 	// random points
@@ -295,7 +315,11 @@ func TestSWR(t *testing.T) {
 		case 1:
 			c = int64(g.intn(30_000))*int64(time.Millisecond) + 29
 		}
-		lines = append(lines, runSWR(t, &swrExp{Setting: s, Latency: d, Cancel: c, Outcome: g.pick("304", "200", "500", "err"), Validator: []int{0, 1, 2, 3, 5, 7}[g.intn(6)]}))
+		dl := int64(0)
+		if g.chance(0.3) {
+			dl = int64(1+g.intn(30_000))*int64(time.Millisecond) + 17
+		}
+		lines = append(lines, runSWR(t, &swrExp{Setting: s, Latency: d, Cancel: c, Outcome: g.pick("304", "200", "500", "err"), Validator: []int{0, 1, 2, 3, 5, 7}[g.intn(6)], Deadline: dl}))
 	}
 	if err := writeLines(filepath.Join(out, "swr.txt"), lines); err != nil {
 		t.Fatal(err)
